@@ -587,15 +587,28 @@ theorem C01_bits_minmax_gain_le_one (t : Tie) (c : BitsCfg) (hg0 : 0 ≤ c.gain)
 
 /-! ### quantized_relu: `relu_upper_bound` / `is_quantized_clip` -/
 
-/-- with `is_quantized_clip` (the default), without an upper bound, or with the falsy bound `0.0` the
-    call is the plain quantizer -/
+/-- with `is_quantized_clip` (the default) or without an upper bound the call is the plain quantizer.
+    (Until the fix of C02-relu-upper-zero this also held for the falsy bound `0.0`; now that bound clamps like any other:
+    `C01_reluU_zero_bound`.) -/
 theorem C01_reluU_default (t : Tie) (c : ReluCfg)
-    (h : c.qclip = true ∨ c.upper = none ∨ c.upper = some 0) (x : ℚ) : qreluU t c x = qrelu t c x := by
+    (h : c.qclip = true ∨ c.upper = none) (x : ℚ) : qreluU t c x = qrelu t c x := by
   apply qreluU_of_clamp_none
-  rcases h with h | h | h
+  rcases h with h | h
   · exact ReluCfg.clamp_of_qclip h
   · exact ReluCfg.clamp_of_no_upper h
-  · exact ReluCfg.clamp_of_zero h
+
+/-- every given bound is respected, whatever its value (in particular `relu_upper_bound = 0.0`):
+    no output of `quantized_relu(is_quantized_clip=False, relu_upper_bound=u)` exceeds `u` -/
+theorem C01_reluU_le_bound (t : Tie) (c : ReluCfg) (u : ℚ) (hq : c.qclip = false)
+    (hu : c.upper = some u) (x : ℚ) : qreluU t c x ≤ u := by
+  unfold qreluU
+  rw [ReluCfg.clamp_of_upper hq hu]
+  exact clampTo_le_bound u _
+
+/-- the bound `0.0` of a plain ReLU: every output is the code `0` (regression of C02-relu-upper-zero) -/
+theorem C01_reluU_zero_bound (t : Tie) (c : ReluCfg) (h : c.slopeLog = none) (hq : c.qclip = false)
+    (hu : c.upper = some 0) (x : ℚ) : qreluU t c x = 0 :=
+  qreluU_zero_bound t c h hq hu x
 
 /-- whatever the options, no output exceeds the largest code: an upper bound ABOVE the largest code
     must not let larger values through -/
